@@ -97,6 +97,58 @@ fn after_end_cases() -> Vec<(String, Vec<u8>)> {
     out
 }
 
+/// modules that are wrong as a whole rather than in one byte: sections repeated or out of order, counts that disagree, indices out of range
+fn structural_cases() -> Vec<(String, Vec<u8>)> {
+    fn sec(id: u8, payload: &[u8]) -> Vec<u8> { let mut v = vec![id]; leb(payload.len() as u32, &mut v); v.extend_from_slice(payload); v }
+    fn leb(mut n: u32, out: &mut Vec<u8>) { loop { let b = (n & 0x7f) as u8; n >>= 7; if n == 0 { out.push(b); break } else { out.push(b | 0x80) } } }
+    let header: Vec<u8> = vec![0x00, 0x61, 0x73, 0x6d, 0x01, 0x00, 0x00, 0x00];
+    let types = sec(1, &[0x01, 0x60, 0x00, 0x00]);                 // one type: () -> ()
+    let funcs1 = sec(3, &[0x01, 0x00]);
+    let funcs2 = sec(3, &[0x02, 0x00, 0x00]);
+    let body = [0x02u8, 0x00, 0x0b];                               // size 2: no locals, end
+    let code1 = { let mut p = vec![0x01]; p.extend_from_slice(&body); sec(10, &p) };
+    let code2 = { let mut p = vec![0x02]; p.extend_from_slice(&body); p.extend_from_slice(&body); sec(10, &p) };
+    let mem = sec(5, &[0x01, 0x00, 0x01]);
+    let table = sec(4, &[0x01, 0x70, 0x00, 0x01]);
+    let many_locals = { let mut p = vec![0x01, 0x08, 0x01, 0xff, 0xff, 0xff, 0xff, 0x0f, 0x7f, 0x0b]; p.truncate(10); sec(10, &p) };
+    let cat = |parts: &[&Vec<u8>]| -> Vec<u8> { let mut m = header.clone(); for p in parts { m.extend_from_slice(p); } m };
+    vec![
+        ("two functions declared, one body".to_string(), cat(&[&types, &funcs2, &code1])),
+        ("one function declared, two bodies".to_string(), cat(&[&types, &funcs1, &code2])),
+        ("function section without code section".to_string(), cat(&[&types, &funcs1])),
+        ("code section without function section".to_string(), cat(&[&types, &code1])),
+        ("type section twice".to_string(), cat(&[&types, &types, &funcs1, &code1])),
+        ("code section twice".to_string(), cat(&[&types, &funcs1, &code1, &code1])),
+        ("memory section after code".to_string(), cat(&[&types, &funcs1, &code1, &mem])),
+        ("function section before type section".to_string(), cat(&[&funcs1, &types, &code1])),
+        ("function type index out of range".to_string(), cat(&[&types, &sec(3, &[0x01, 0x05]), &code1])),
+        ("start index out of range".to_string(), cat(&[&types, &funcs1, &sec(8, &[0x07]), &code1])),
+        ("start function with a parameter".to_string(), cat(&[&sec(1, &[0x01, 0x60, 0x01, 0x7f, 0x00]), &funcs1, &sec(8, &[0x00]), &code1])),
+        ("export of a function that does not exist".to_string(), cat(&[&types, &funcs1, &sec(7, &[0x01, 0x01, b'f', 0x00, 0x09]), &code1])),
+        ("export of a memory that does not exist".to_string(), cat(&[&types, &funcs1, &sec(7, &[0x01, 0x01, b'm', 0x02, 0x00]), &code1])),
+        ("two exports with the same name".to_string(), cat(&[&types, &funcs1, &sec(7, &[0x02, 0x01, b'f', 0x00, 0x00, 0x01, b'f', 0x00, 0x00]), &code1])),
+        ("element segment naming a function out of range".to_string(), cat(&[&types, &funcs1, &table, &sec(9, &[0x01, 0x00, 0x41, 0x00, 0x0b, 0x01, 0x04]), &code1])),
+        ("element segment for a table that does not exist".to_string(), cat(&[&types, &funcs1, &sec(9, &[0x01, 0x00, 0x41, 0x00, 0x0b, 0x01, 0x00]), &code1])),
+        ("data segment for a memory that does not exist".to_string(), cat(&[&types, &funcs1, &code1, &sec(11, &[0x01, 0x00, 0x41, 0x00, 0x0b, 0x01, 0x2a])])),
+        ("global initialised from a later global".to_string(), cat(&[&sec(6, &[0x02, 0x7f, 0x00, 0x23, 0x01, 0x0b, 0x7f, 0x00, 0x41, 0x01, 0x0b])])),
+        ("global initialiser of the wrong type".to_string(), cat(&[&sec(6, &[0x01, 0x7f, 0x00, 0x42, 0x01, 0x0b])])),
+        ("body declaring 4 billion locals".to_string(), cat(&[&types, &funcs1, &many_locals])),
+        ("body size larger than the section".to_string(), cat(&[&types, &funcs1, &sec(10, &[0x01, 0x7f, 0x00, 0x0b])])),
+        ("body size zero".to_string(), cat(&[&types, &funcs1, &sec(10, &[0x01, 0x00])])),
+        ("two memories without multi-memory? (valid when enabled)".to_string(), cat(&[&sec(5, &[0x02, 0x00, 0x01, 0x00, 0x01])])),
+        ("memory minimum above maximum".to_string(), cat(&[&sec(5, &[0x01, 0x01, 0x05, 0x01])])),
+        ("import of a function type out of range".to_string(), cat(&[&types, &sec(2, &[0x01, 0x01, b'm', 0x01, b'f', 0x00, 0x03])])),
+        ("section size runs past the end of the module".to_string(), cat(&[&vec![0x01, 0x7f, 0x01, 0x60, 0x00, 0x00]])),
+        ("section id 12 with a payload".to_string(), cat(&[&types, &sec(12, &[0x01])])),
+        ("custom section with a name longer than the section".to_string(), cat(&[&sec(0, &[0x09, b'a'])])),
+        ("custom section with invalid utf-8 in its name".to_string(), cat(&[&sec(0, &[0x02, 0xff, 0xfe, 0x00])])),
+        ("name section with garbage (must be ignored or rejected, not panic)".to_string(), cat(&[&types, &funcs1, &code1, &sec(0, &[0x04, b'n', b'a', b'm', b'e', 0x01, 0x7f, 0x00])])),
+        ("name section naming a function out of range".to_string(), cat(&[&types, &funcs1, &code1, &sec(0, &[0x04, b'n', b'a', b'm', b'e', 0x01, 0x04, 0x01, 0x09, 0x01, b'x'])])),
+        ("name section naming a local of a function out of range".to_string(), cat(&[&types, &funcs1, &code1, &sec(0, &[0x04, b'n', b'a', b'm', b'e', 0x02, 0x06, 0x01, 0x07, 0x01, 0x00, 0x01, b'x'])])),
+        ("producers section with garbage".to_string(), cat(&[&types, &funcs1, &code1, &sec(0, &[0x09, b'p', b'r', b'o', b'd', b'u', b'c', b'e', b'r', b's', 0x05, 0xff])])),
+    ]
+}
+
 fn nested(depth: usize) -> Vec<u8> {
     use wasm_encoder::*;
     let mut m = Module::new();
@@ -154,6 +206,7 @@ pub fn gate(args: &[String]) -> Result<JValue> {
     }
     for (name, bytes) in data_count_cases() { judge("hand-built", name, &bytes, &mut failures); }
     for (name, bytes) in after_end_cases() { judge("hand-built", &name, &bytes, &mut failures); }
+    for (name, bytes) in structural_cases() { judge("hand-built", &name, &bytes, &mut failures); }
     for (name, bytes) in unsupported() {
         for only_stable in [false, true] {
             checked += 1;
